@@ -7,5 +7,6 @@ CONSTANTS
   MaxPeer = 2
   MaxOps = 2
   DeleteOnMatch = TRUE
-INVARIANTS MatchOnce OnePerTid Emit
+  WaitDecodes = TRUE
+INVARIANTS MatchOnce OnePerTid EveryResponseJudged Emit
 CHECK_DEADLOCK FALSE
